@@ -53,6 +53,7 @@ func c11secret(r *vlib.Rng, tag string) (secret, core string) {
 }
 
 type c11case struct {
+	fault string // "", "wfail-secret", "eof-secret", "wfail-return" (fault injected at the write that carries a secret / at the next write)
 	seed uint64
 	kind string // escalate-ask, escalate-noask, escalate-reject, telnet, ssh, ssh-passphrase, platform-redacted
 	level string
@@ -70,6 +71,30 @@ func runC11case(cs c11case) (leaks []string, info string, nmsgs int, redactedWri
 	note := func(s, c string) { secrets = append(secrets, s); cores = append(cores, c) }
 	segs := []func(int) int{nil, sim.SegFixed(1), sim.SegFixed(5)}
 	seg := segs[r.Intn(len(segs))]
+	// fault injection keyed on the secret's core: the write that carries a secret fails, or the
+	// device drops the session right after receiving it, or the write after it (the return) fails
+	sawSecret := false
+	fault := func(b []byte) (bool, bool) {
+		hit := false
+		for _, c := range cores {
+			if bytes.Contains(b, []byte(c)) {
+				hit = true
+			}
+		}
+		switch cs.fault {
+		case "wfail-secret":
+			return hit, false
+		case "eof-secret":
+			return false, hit
+		case "wfail-return":
+			if sawSecret {
+				sawSecret = false
+				return true, false
+			}
+			sawSecret = hit
+		}
+		return false, false
+	}
 	switch cs.kind {
 	case "escalate-ask", "escalate-noask", "escalate-reject":
 		sec, core := c11secret(r, "EN")
@@ -80,6 +105,7 @@ func runC11case(cs c11case) (leaks []string, info string, nmsgs int, redactedWri
 		}
 		dev := sim.NewIOS("router", devSecret, cs.kind != "escalate-noask")
 		dev.Seg = seg
+		dev.WriteFault = fault
 		dev.Start()
 		p, err := platform.NewPlatform("cisco_iosxe", "h", append(common, options.WithCustomTransport(dev), options.WithAuthBypass(), options.WithAuthSecondary(sec))...)
 		if err != nil {
@@ -119,6 +145,7 @@ func runC11case(cs c11case) (leaks []string, info string, nmsgs int, redactedWri
 		dev := sim.NewMiniLogin(fl, "admin", pass, pp, cs.rejects%9)
 		dev.Banner = "\nUser Access Verification\n\n"
 		dev.Seg = seg
+		dev.WriteFault = fault
 		dev.Start()
 		d, err := generic.NewDriver("h", append(common, options.WithCustomTransport(dev), options.WithAuthUsername("admin"), options.WithAuthPassword(typed))...)
 		if err != nil {
@@ -152,6 +179,7 @@ func runC11case(cs c11case) (leaks []string, info string, nmsgs int, redactedWri
 		}
 		dev.Hidden = true
 		dev.Seg = seg
+		dev.WriteFault = fault
 		dev.Mu.Lock()
 		dev.EmitRich("Key: ")
 		dev.Mu.Unlock()
@@ -215,11 +243,16 @@ func runC11(c *ctx) {
 		f := strings.Fields(c.replay)
 		seed, _ := strconv.ParseUint(f[1], 10, 64)
 		rej, _ := strconv.Atoi(f[4])
-		cases = []c11case{{seed: seed, kind: f[2], level: f[3], rejects: rej}}
+		cs := c11case{seed: seed, kind: f[2], level: f[3], rejects: rej}
+		if len(f) > 5 && f[5] != "-" {
+			cs.fault = f[5]
+		}
+		cases = []c11case{cs}
 	} else {
-		for i := 0; i < c.n(220, 6000); i++ {
+		for i := 0; i < c.n(420, 9000); i++ {
 			cs := c11case{seed: c.rng.U64(), kind: kinds[c.rng.Intn(len(kinds))], level: []string{"debug", "debug", "info", "critical"}[c.rng.Intn(4)]}
 			cs.rejects = []int{0, 0, 1, 2, 3, 9}[c.rng.Intn(6)]
+			cs.fault = []string{"", "", "", "wfail-secret", "eof-secret", "wfail-return"}[c.rng.Intn(6)]
 			cases = append(cases, cs)
 		}
 	}
@@ -244,17 +277,22 @@ func runC11(c *ctx) {
 	wg.Wait()
 	for i, cs := range cases {
 		o := outs[i]
-		line := fmt.Sprintf("c11case %d %s %s %d", cs.seed, cs.kind, cs.level, cs.rejects)
+		fl := cs.fault
+		if fl == "" {
+			fl = "-"
+		}
+		line := fmt.Sprintf("c11case %d %s %s %d %s", cs.seed, cs.kind, cs.level, cs.rejects, fl)
+		res.Count("fault:" + fl)
 		res.Count("kind:" + cs.kind)
 		res.Count("level:" + cs.level)
-		res.Count("outcome:" + cs.kind + ":" + o.info)
+		res.Count("outcome:" + cs.kind + ":" + fl + ":" + o.info)
 		res.Case(line, o.rw > 0 || cs.level != "debug")
 		res.InDomain++
 		if i%37 == 0 {
 			res.Sample(map[string]any{"case": line, "outcome": o.info, "log_messages": o.n, "redacted_writes_logged": o.rw})
 		}
 		if len(o.leaks) > 0 {
-			res.Fail("oracle", line, fmt.Sprintf("secret visible in %d place(s), first: %s", len(o.leaks), o.leaks[0]), "secret-in-log:"+cs.kind)
+			res.Fail("oracle", line, fmt.Sprintf("secret visible in %d place(s), first: %s", len(o.leaks), o.leaks[0]), "secret-in-log:"+cs.kind+":"+fl)
 		}
 	}
 	res.TracesVsImpl = len(cases)
